@@ -1,7 +1,8 @@
 (* C08 -- scores are linear in the utility; JointUtility is the weighted sum of its parts.  Statements only. *)
 From Coq Require Import List Arith ZArith QArith Bool Permutation.
-From DS Require Import Util.SumQ Spec.Shapley Spec.NNGame Model.Kernel Model.Neighbor Model.Utility
-     Proofs.ShapleyAxioms Proofs.KernelFull Proofs.KernelInvariance Proofs.UtilityProofs.
+From DS Require Import Util.SumQ Spec.Shapley Spec.NNGame Model.Kernel Model.Neighbor Model.Utility Model.Provenance Model.Bruteforce
+     Model.ADD Spec.Count Model.ShapleyAdd
+     Proofs.ShapleyAxioms Proofs.KernelFull Proofs.KernelInvariance Proofs.UtilityProofs Proofs.Linearity.
 Import ListNotations.
 Local Open Scope Q_scope.
 
@@ -40,7 +41,30 @@ Proof. exact shapley_scale. Qed.
 Theorem C08_shapley_shift : forall n v c i, (i < n)%nat -> shapley_bf n (fun m => v m + c) i == shapley_bf n v i.
 Proof. exact shapley_shift. Qed.
 
+(* the MODEL of the bruteforce loop under a joint utility (weighted sum of the component scores, failing when a component
+   fails): when no coalition evaluation fails, the result is the same weighted sum of the results under the components -- for every
+   provenance, every pair of utilities and whatever the three null scores are (they are never used) *)
+Theorem C08_bruteforce_linear : forall n p u1 u2 a b null1 null2 nullj i, (i < n)%nat ->
+  (forall m, length m = n -> u1 (rows_selected p m) <> Failed /\ u2 (rows_selected p m) <> Failed) ->
+  nth i (bruteforce n p (joint_utility a b u1 u2) nullj) 0
+  == a * nth i (bruteforce n p u1 null1) 0 + b * nth i (bruteforce n p u2 null2) 0.
+Proof. exact bruteforce_linear. Qed.
+
+(* the MODEL of compute_shapley_add (neighbor with any K, any conjunctive provenance) is linear in (utility table, null vector):
+   one record per validation point carries the problem, the oracle answers and the two component utilities; nothing is assumed
+   of the oracle, the distances or K *)
+Theorem C08_add_linear : forall (pts : list vpoint) a b n i, (i < n)%nat ->
+  (forall t, In t pts -> length (fst (vp_1 t)) = length (fst (vp_2 t))) ->
+  nth i (shapley_add (map vp_p pts) (map vp_o pts)
+                     (map (fun t => lin_col a b (fst (vp_1 t)) (fst (vp_2 t))) pts)
+                     (map (fun t => a * snd (vp_1 t) + b * snd (vp_2 t)) pts) n) 0
+  == a * nth i (shapley_add (map vp_p pts) (map vp_o pts) (map (fun t => fst (vp_1 t)) pts) (map (fun t => snd (vp_1 t)) pts) n) 0
+   + b * nth i (shapley_add (map vp_p pts) (map vp_o pts) (map (fun t => fst (vp_2 t)) pts) (map (fun t => snd (vp_2 t)) pts) n) 0.
+Proof. exact add_linear. Qed.
+
 Print Assumptions C08_joint_components.
+Print Assumptions C08_bruteforce_linear.
+Print Assumptions C08_add_linear.
 Print Assumptions C08_joint_score.
 Print Assumptions C08_kernel_linear.
 Print Assumptions C08_shift.
